@@ -81,6 +81,21 @@ func c02Gen(c *vfCtx, emit func(c02Case)) {
 			}
 		}
 	}
+	if c.thorough() {
+		near := vfBodies(vfSigmaNear, 1, 1)
+		c.bound("near_miss_bodies", len(near))
+		for _, color := range []bool{false, true} {
+			pairs("snap", near, color, "unset")
+			var nearY []string
+			for _, d := range near {
+				var out any
+				if !vfHasTrailingCR(d) && yaml.Unmarshal([]byte(d), &out) == nil {
+					nearY = append(nearY, d)
+				}
+			}
+			pairs("yaml", nearY, color, "unset")
+		}
+	}
 	for _, color := range []bool{false, true} {
 		pairs("snap", bodies, color, "unset")
 		pairs("ssnap", sbodies, color, "unset")
